@@ -47,8 +47,10 @@ inductive Pre | none | L | u8 | u | U
 inductive Expr
   /-- integer literal: decimal?, value, suffix class -/
   | int (dec : Bool) (n : Nat) (suf : IntSuffix)
-  /-- floating literal: suffix, the f64 nearest to the digits, the f32 nearest to the digits -/
-  | flt (suf : FSuffix) (bits64 : Nat) (bits32 : Nat)
+  /-- floating literal: suffix, the f64 nearest to the digits, the f32 nearest to the digits,
+  and whether the text has both a `.` and an exponent (cexpr's `c_float` commits to the
+  `digits.digits` alternative and then fails on the exponent, so such a literal does not parse) -/
+  | flt (suf : FSuffix) (bits64 : Nat) (bits32 : Nat) (dotExp : Bool)
   /-- single-character literal with the code of its one c-char / escape -/
   | chr (pre : Pre) (code : Nat)
   /-- string literal: bytes after escape processing -/
@@ -174,7 +176,7 @@ def isCexprBinOp : BinOp → Bool
 /-- `PRef::numeric_expr`: only integer / float results; anything else is a parse error -/
 def cexprNum (env : Env) : Expr → Outcome
   | .int _ n _ => if n < 18446744073709551616 then .ok (.int (wrap64 n)) else .fail
-  | .flt _ b _ => .ok (.flt b)
+  | .flt _ b _ dotExp => if dotExp then .fail else .ok (.flt b)
   | .ident n =>
     (match lookup env n with
      | some (.int v) => .ok (.int v)
@@ -343,7 +345,9 @@ def litType (dec : Bool) (n : Nat) (suf : IntSuffix) : Option CTy :=
 inductive CVal
   | int (ty : CTy) (v : Int)
   | flt (ty : CTy) (bits : Nat)     -- float: f32 bits; double / long double: f64 bits
-  | str (pre : Pre) (bytes : List Nat)
+  /-- `bare`: the text is a sequence of string-literal tokens (no parentheses), so it can
+  be concatenated with adjacent string literals after macro expansion -/
+  | str (pre : Pre) (bytes : List Nat) (bare : Bool)
   deriving DecidableEq, Repr
 
 inductive CRes
@@ -472,7 +476,7 @@ def convTo (t : CTy) (v : CVal) : CRes :=
 /-- type of the result, when the expression is an arithmetic expression of the fragment -/
 def typeOf (tenv : List (String × CTy)) : Expr → Option CTy
   | .int dec n suf => litType dec n suf
-  | .flt suf _ _ => some (match suf with | .none => .double | .f => .float | .l => .ldouble)
+  | .flt suf _ _ _ => some (match suf with | .none => .double | .f => .float | .l => .ldouble)
   | .chr pre _ => some (match pre with | .u => .ushort | .U => .uint | _ => .int)
   | .str .. => none
   | .cat .. => none
@@ -497,6 +501,33 @@ def typeOf (tenv : List (String × CTy)) : Expr → Option CTy
   | .cast t _ => some t
   | .sizeofTy _ => some .ulong
 
+/-- C's static constraints on an arithmetic expression of the fragment (they also apply to
+operands that are never evaluated): `% << >> & ^ | ~` need integer operands, every identifier
+is a known arithmetic macro, string literals do not occur -/
+def wellTyped (tenv : List (String × CTy)) : Expr → Bool
+  | .int dec n suf => (litType dec n suf).isSome
+  | .flt .. => true
+  | .chr .. => true
+  | .str .. => false
+  | .cat .. => false
+  | .ident n => (tenv.find? (·.1 = n)).isSome
+  | .paren e => wellTyped tenv e
+  | .un op e => wellTyped tenv e &&
+      (match op, typeOf tenv e with
+       | .bnot, some t => !t.isFloat
+       | _, some _ => true
+       | _, none => false)
+  | .bin op a b => wellTyped tenv a && wellTyped tenv b &&
+      (match typeOf tenv a, typeOf tenv b with
+       | some ta, some tb =>
+         (match op with
+          | .rem | .shl | .shr | .band | .bxor | .bor => !ta.isFloat && !tb.isFloat
+          | _ => true)
+       | _, _ => false)
+  | .cond c a b => wellTyped tenv c && wellTyped tenv a && wellTyped tenv b
+  | .cast _ e => wellTyped tenv e
+  | .sizeofTy _ => true
+
 def CVal.tyOrInt : CVal → CTy
   | .int t _ => t
   | .flt t _ => t
@@ -508,7 +539,7 @@ def tenvOf (env : CEnv) : List (String × CTy) :=
 def cEval (env : CEnv) : Expr → CRes
   | .int dec n suf =>
     (match litType dec n suf with | some t => .val (.int t n) | none => .bad)
-  | .flt suf b64 b32 =>
+  | .flt suf b64 b32 _ =>
     (match suf with
      | .none => .val (.flt .double b64)
      | .f => .val (.flt .float b32)
@@ -521,15 +552,18 @@ def cEval (env : CEnv) : Expr → CRes
      | .u8 => if code < 128 then .val (.int .int code) else .bad
      | .u => if code < 65536 then .val (.int .ushort code) else .bad
      | .U => .val (.int .uint code))
-  | .str pre bytes => .val (.str pre bytes)
+  | .str pre bytes => .val (.str pre bytes true)
   | .cat a b =>
     (match cEval env a, cEval env b with
-     | .val (.str p x), .val (.str q y) =>
-       if p = q ∨ q = .none then .val (.str p (x ++ y))
-       else if p = .none then .val (.str q (x ++ y)) else .bad
+     | .val (.str p x true), .val (.str q y true) =>
+       if p = q ∨ q = .none then .val (.str p (x ++ y) true)
+       else if p = .none then .val (.str q (x ++ y) true) else .bad
      | _, _ => .bad)
   | .ident n => (match clookup env n with | some v => .val v | none => .bad)
-  | .paren e => cEval env e
+  | .paren e =>
+    (match cEval env e with
+     | .val (.str p b _) => .val (.str p b false)
+     | r => r)
   | .un op e =>
     (match cEval env e with
      | .val (.int t i) =>
@@ -554,7 +588,7 @@ def cEval (env : CEnv) : Expr → CRes
        (match cEval env a with
         | .val x =>
           (match truthy x with
-           | some false => .val (.int .int 0)
+           | some false => if wellTyped (tenvOf env) b then .val (.int .int 0) else .bad
            | some true =>
              (match cEval env b with
               | .val y => (match truthy y with | some c => .val (.int .int (if c then 1 else 0)) | none => .bad)
@@ -565,7 +599,7 @@ def cEval (env : CEnv) : Expr → CRes
        (match cEval env a with
         | .val x =>
           (match truthy x with
-           | some true => .val (.int .int 1)
+           | some true => if wellTyped (tenvOf env) b then .val (.int .int 1) else .bad
            | some false =>
              (match cEval env b with
               | .val y => (match truthy y with | some c => .val (.int .int (if c then 1 else 0)) | none => .bad)
@@ -588,6 +622,7 @@ def cEval (env : CEnv) : Expr → CRes
           -- both branches are typed, only the selected one is evaluated
           match typeOf (tenvOf env) a, typeOf (tenvOf env) b with
           | some ta, some tb =>
+            if !(wellTyped (tenvOf env) a && wellTyped (tenvOf env) b) then .bad else
             (match (if cb then cEval env a else cEval env b) with
              | .val x => convTo (uac ta tb) x
              | r => r)
@@ -605,12 +640,38 @@ definition (the generator only produces bodies whose references make that a depe
 def lastBody (defs : List (String × Expr)) (n : String) : Option Expr :=
   defs.foldl (fun acc d => if d.1 = n then some d.2 else acc) none
 
-def cFinalEnv (defs : List (String × Expr)) : CEnv :=
+/-- A body whose top-level operator is binary / conditional is OPEN: after textual macro
+expansion its operands may re-associate with the surrounding operators (`#define A 1+2`,
+`A*3` is `1+2*3`).  The value-based evaluation below is only right for CLOSED names, so open
+names are not visible as operands (a reference to one is `.bad` = outside the model). -/
+def isOpen (openNames : List String) : Expr → Bool
+  | .bin .. => true
+  | .cond .. => true
+  | .ident n => openNames.contains n
+  | _ => false
+
+structure FinalEnv where
+  /-- value of every name that has one -/
+  all : CEnv := []
+  /-- names usable as operands (closed) -/
+  operand : CEnv := []
+  openNames : List String := []
+
+def cFinal (defs : List (String × Expr)) : FinalEnv :=
   let names := defs.foldl (fun acc d => if acc.contains d.1 then acc else acc ++ [d.1]) ([] : List String)
-  names.foldl (fun env n =>
+  names.foldl (fun fe n =>
     match lastBody defs n with
-    | some b => (match cEval env b with | .val v => (n, v) :: env | _ => env)
-    | none => env) []
+    | some b =>
+      let op := isOpen fe.openNames b
+      (match cEval fe.operand b with
+       | .val v =>
+         { all := (n, v) :: fe.all,
+           operand := if op then fe.operand else (n, v) :: fe.operand,
+           openNames := if op then n :: fe.openNames else fe.openNames }
+       | _ => { fe with openNames := if op then n :: fe.openNames else fe.openNames })
+    | none => fe) {}
+
+def cFinalEnv (defs : List (String × Expr)) : CEnv := (cFinal defs).all
 
 /-! ## static typing (no evaluation): the region predicates need only this -/
 
@@ -632,7 +693,7 @@ def stripParens : Expr → Expr
 
 /-- the body contains a floating literal with an `f`/`l` suffix -/
 def hasFloatSuffix : Expr → Bool
-  | .flt suf _ _ => suf != .none
+  | .flt suf _ _ _ => suf != .none
   | .paren e => hasFloatSuffix e
   | .un _ e => hasFloatSuffix e
   | .bin _ a b => hasFloatSuffix a || hasFloatSuffix b
